@@ -75,6 +75,13 @@ CLAIMED = {
         "Trusted: ledger + reference decoder for the classes of reported events, OutstationInformation callbacks for the instant a confirm timer fires / a confirmation is accepted (each cross-checked against the configured timeout and the CONFIRMs actually sent), tokio paused clock. A CONFIRM sent exactly at the timeout instant ends monitoring of that run (either outcome legitimate).",
         "DESIGN.md section 6 C14",
     ),
+    "C15": (
+        "S-MAST",
+        "deterministic simulation: seeded search over response streams (faithful answers mixed with single-respect deviations, stale/foreign/late/duplicate fragments, unsolicited traffic, raw injections, silence), network latencies and read chunkings against the real master task over a simulated TCP seam; oracle = acceptance/confirmation/delivery obligations evaluated over the recorded history in master-time order",
+        "Seeded exploration (not exhaustive): the real ClientTask + MasterTask talk to a scripted outstation through the simulated network (hook H3) in virtual time. For every outstanding task kind (user reads with 1..20 response fragments, commands, time-sync steps, empty-response requests, restarts) and for idle, the scripted outstation answers with the correct response or one that is wrong in exactly one respect (sequence, source, each FIR/FIN/CON/UNS nibble on first and later fragments, function code, IIN2 rejection, truncated / replaced objects), stale-then-correct, duplicates, late replies beyond the timeout, unsolicited responses with and without data/CON at every position and repeated up to three times, and silence. Every response carries unique values, so each value handed to the ReadHandler is attributed to one transmitted fragment. The oracle requires: nothing the outstation classed unacceptable reaches the handler or completes a task; every acceptable fragment is delivered exactly once in wire order; every accepted CON fragment gets exactly one CONFIRM with its sequence/UNS bit and no CONFIRM is sent otherwise; a repeated unsolicited fragment is confirmed but not delivered.",
+        "Trusted: reference codec (harness/refcodec), the scripted outstation's own classification of each fragment it sends, the recording handler stubs, tokio's paused clock. Deliberate relaxations: a deviation that happens to be indistinguishable from a correct answer at the moment it arrives (well-formed, expected sequence and FIR, in time - e.g. a stale answer that was held up, a truncation right after the IIN, count-qualified event headers that the library's direction-agnostic parser reads as data-less) makes the rest of that request don't-care; so does an arrival in the same virtual millisecond as a task boundary or the response deadline. With start-up gating configured, unsolicited data before integrity completion is left to C17.",
+        "DESIGN.md section 6 C15",
+    ),
     "C04": (
         "S-OUT",
         "deterministic simulation: seeded search over request histories, virtual-time advances around the select timeout, retransmissions, reconnects/pre-emption and handler answers against the real outstation task; oracle = the property's predicate evaluated on the harness' own record of the history",
@@ -129,6 +136,7 @@ def main():
         "engines": [
             {"name": "S-LINK", "path": "harness/props/c06.rs", "serves_properties": ["C06", "C07"], "kind_free_text": "real link reader/parser/formatter (C06) and real link Layer (C07 link scenario) over a simulated physical layer; seeded streams, faults and read plans"},
             {"name": "S-OUT", "path": "harness/sout.rs", "serves_properties": ["C03", "C04", "C05", "C07", "C11", "C12", "C13", "C14"], "kind_free_text": "real OutstationTask (session, database, event buffer, real transport/link) run by the real ServerTask over simulated connections; scripted master peer using the reference codec; recording stubs for user callbacks; user transactions injected at database lock points (H4)"},
+            {"name": "S-MAST", "path": "harness/smast.rs", "serves_properties": ["C15"], "kind_free_text": "real MasterTask run by the real tcp ClientTask over a simulated network (H3) with latency and chunking; scripted outstation(s) built on the reference codec with a queue of reply policies; recording stubs for ReadHandler/AssociationHandler/AssociationInformation/Listener; user requests issued by simulated tasks through the public async API"},
             {"name": "S-TRANS", "path": "harness/props/c08.rs", "serves_properties": ["C08"], "kind_free_text": "two real transport writers -> frame-level fault stage -> real transport reader (link layer + assembler) over simulated phys"},
         ],
         "checks": checks,
